@@ -16,6 +16,7 @@
 import FFS.Model.AbiEntry
 import FFS.Props.C11
 import FFS.Props.C13
+import FFS.Props.C03
 namespace FFS.Props.C12
 open FFS FFS.Model.Abi FFS.Gen.AbiEntryFacts
 
@@ -256,6 +257,52 @@ theorem event_values_by_position : ∀ (ps : List Param) (ts : List Ty) (topics 
             constructor
             · simp only [dataTypes, hi, Bool.false_eq_true, if_false, i1]
             · simp only [specEvent, hi, Bool.false_eq_true, if_false, i2, Option.map_some, fillFromData]
+
+/-- a selector is four bytes -/
+theorem selector_length (e : Entry) (id : Bytes) (h : selector e = .ok id) : id.length = 4 := by
+  unfold selector at h
+  cases hs : signatureHash e with
+  | err => rw [hs] at h; cases h
+  | panic => rw [hs] at h; cases h
+  | ok hh =>
+    rw [hs] at h
+    simp only [Outcome.map] at h
+    injection h with h
+    subst h
+    unfold signatureHash at hs
+    cases hsig : signature e with
+    | err => rw [hsig] at hs; cases hs
+    | panic => rw [hsig] at hs; cases hs
+    | ok s =>
+      rw [hsig] at hs
+      simp only [Outcome.map] at hs
+      injection hs with hs
+      subst hs
+      simp [Prim.keccak256_length]
+
+/-! ### an entry decodes its own call data -/
+
+/-- **Own call data decodes to the arguments.** For an entry whose inputs parse to valid types, the bytes
+    `selector ‖ enc(args)` (the specification encoding, which `C02.encode_eq_spec` shows is what the encoder produces)
+    are accepted by `DecodeCallData` and give back exactly the arguments. -/
+theorem calldata_own_roundtrip (e : Entry) (ts : List Ty) (ns : List String) (cs : List CV) (id : Bytes)
+    (hp : parseParams e.inputs = .ok ts) (hsel : selector e = .ok id)
+    (hv : C03.ValidTys ts) (hw : Spec.Abi.wellTypedEach ts cs = true) (hs : C03.Small (.tuple ns ts) (.kids cs)) :
+    decodeCallData e (id ++ Spec.Abi.enc (.tuple ns ts) (.kids cs)) = .ok (.kids cs) := by
+  have hid := selector_length e id hsel
+  unfold decodeCallData
+  rw [hsel]
+  simp only []
+  have hlen : ¬ (id ++ Spec.Abi.enc (.tuple ns ts) (.kids cs)).length < 4 := by simp; omega
+  rw [if_neg hlen]
+  have htake : (id ++ Spec.Abi.enc (.tuple ns ts) (.kids cs)).take 4 = id := by
+    rw [← hid, List.take_left']
+    rfl
+  rw [htake]
+  simp only [bne_self_eq_false, Bool.and_false, Bool.false_eq_true, if_false, hp]
+  have := C03.decodeParams_enc ns ts cs id [] hv hw hs
+  rw [List.append_nil, hid] at this
+  exact this
 
 /-! ### non-vacuity: concrete inputs on which the hypotheses hold (evaluated by the kernel) -/
 def isOk {α : Type} : Outcome α → Bool | .ok _ => true | _ => false
